@@ -662,6 +662,129 @@ def reuse_stream(ctx, n_cases, present):
     return rows, bad_rows
 
 
+def tiny_stream(ctx, n_cases, present):
+    """tiny and mixed tiny/huge scales (powers of 4 down to 4^-60 in double, 4^-25 in single - exact reciprocals) for Diagonal / ScalarMul / c*Identity leaves,
+    stand-alone and inside Product / Kronecker / BlockDiag next to small-integer dense, triangular and permutation factors, every algorithm class,
+    inv@b / solve / b@inv / to_dense.  Exact reference: the inverse is composed from the factors' exact inverses (reciprocals of powers of two, integer
+    inverses of unimodular matrices), so every reference entry is a small integer times a power of two."""
+    import cola
+    from cola import ops
+    from cola.linalg import inv, solve
+    r = ctx.rng
+    g = L.GenInv(r, present)
+    rows, bad_rows = [], []
+
+    def tinyvals(n, single, positive):
+        lo, hi = (12, 25) if single else (30, 60)
+        mode = r.choice(["tiny", "tiny", "mixed", "one_tiny"])
+        out = []
+        for i in range(n):
+            if mode == "tiny" or (mode == "one_tiny" and i == 0):
+                e = -r.randint(lo, hi)
+            elif mode == "mixed":
+                e = r.choice([-r.randint(lo, hi), r.randint(0, 11 if single else 30), 0])
+            else:
+                e = r.randint(0, 2)
+            out.append((1.0 if positive else r.choice([1.0, -1.0])) * 4.0 ** e)
+        r.shuffle(out)
+        return out
+
+    def leaf(n, npdt, single, positive):
+        """(operator, dense, exact inverse)"""
+        k = r.choice(["Diag", "Diag", "Scal", "cI", "Dense", "Perm", "Tri"] if not positive else ["Diag", "Diag", "Scal", "cI"])
+        if k == "Diag":
+            d = np.array(tinyvals(n, single, positive), dtype=npdt)
+            return ops.Diagonal(d), np.diag(d).astype(complex), np.diag(1 / d.astype(complex))
+        if k in ("Scal", "cI"):
+            c = tinyvals(1, single, positive)[0]
+            A = ops.ScalarMul(c, (n, n), npdt) if k == "Scal" else c * ops.Identity((n, n), npdt)
+            return A, c * np.eye(n, dtype=complex), np.eye(n, dtype=complex) / c
+        if k == "Perm":
+            p = list(range(n))
+            r.shuffle(p)
+            P = np.zeros((n, n))
+            P[np.arange(n), p] = 1
+            return ops.Permutation(np.array(p), npdt), P.astype(complex), P.T.astype(complex)
+        if k == "Tri":
+            M = np.real(g.lower(n, False))
+            M = M / np.abs(np.diag(M))[:, None] * 1.0    # unit-modulus diagonal keeps the inverse integral
+            M = np.tril(np.rint(M))
+            np.fill_diagonal(M, [r.choice([1, -1]) for _ in range(n)])
+            return ops.Triangular(M.astype(npdt), lower=True), M.astype(complex), np.rint(np.linalg.inv(M)).astype(complex)
+        M = np.real(g.unimod(n, False))
+        return ops.Dense(M.astype(npdt)), M.astype(complex), np.rint(np.linalg.inv(M)).astype(complex)
+
+    def tree(n, depth, npdt, single, positive):
+        if depth <= 0 or r.random() < 0.35:
+            return leaf(n, npdt, single, positive)
+        k = r.choice(["Kron", "BDiag", "Prod", "scaled"] if not positive else ["Kron", "BDiag"]) if n >= 2 else r.choice(["BDiag", "scaled"] if not positive else ["BDiag"])
+        if k == "Kron":
+            a = r.choice([x for x in range(1, n + 1) if n % x == 0])
+            (A1, D1, R1), (A2, D2, R2) = tree(a, depth - 1, npdt, single, positive), tree(n // a, depth - 1, npdt, single, positive)
+            return ops.Kronecker(A1, A2), np.kron(D1, D2), np.kron(R1, R2)
+        if k == "BDiag":
+            import scipy.linalg as sl
+            parts, left = [], n
+            while left > 0:
+                s_ = r.randint(1, min(left, 3))
+                parts.append(s_)
+                left -= s_
+            subs = [tree(s_, depth - 1, npdt, single, positive) for s_ in parts]
+            return ops.BlockDiag(*[x[0] for x in subs]), sl.block_diag(*[x[1] for x in subs]).astype(complex), sl.block_diag(*[x[2] for x in subs]).astype(complex)
+        if k == "scaled":   # c * B  /  B * c
+            c = tinyvals(1, single, False)[0]
+            B, DB, RB = leaf(n, npdt, single, False)
+            return (c * B if r.random() < 0.5 else B * c), c * DB, RB / c
+        # product of a diagonal-like factor and one general factor (either order): reference entries stay exact
+        d = np.array(tinyvals(n, single, False), dtype=npdt)
+        Dg = (ops.Diagonal(d), np.diag(d).astype(complex), np.diag(1 / d.astype(complex)))
+        G = leaf(n, npdt, single, False)
+        F1, F2 = (Dg, G) if r.random() < 0.5 else (G, Dg)
+        A = ops.Product(F1[0], F2[0]) if r.random() < 0.5 else F1[0] @ F2[0]
+        return A, F1[1] @ F2[1], F2[2] @ F1[2]
+
+    for ci in range(n_cases):
+        single = r.random() < 0.4
+        npdt = np.float32 if single else np.float64
+        positive = r.random() < 0.3     # positive diagonal-like trees, declared PSD: Cholesky / CG are admissible
+        n = r.choice([1, 2, 3, 4, 6])
+        try:
+            A, D, ref = tree(n, r.randint(0, 2), npdt, single, positive)
+        except Exception as e:
+            bad_rows.append(dict(oracle_fail=False, harness_error=f"tiny_stream generator: {type(e).__name__}: {str(e)[:200]}"))
+            continue
+        if not (np.all(np.isfinite(D)) and np.all(np.isfinite(ref)) and np.abs(ref).max() < (1e30 if single else 1e200) and np.abs(D).max() < (1e30 if single else 1e200)):
+            continue
+        if positive:
+            A = cola.PSD(A)
+        k = r.choice([0, 1, 2])
+        b = np.array([float(r.randint(1, 3) * r.choice([-1, 1])) for _ in range(n * max(k, 1))], dtype=npdt).reshape((n,) if k == 0 else (n, k))
+        bl = np.array([float(r.randint(1, 3) * r.choice([-1, 1])) for _ in range(n)], dtype=npdt)
+        rel = 1e-4 if single else 1e-10
+        for algn in (["AAuto", "ALU", "AGMRES", "AChol", "ACG"] if positive else ["AAuto", "ALU", "AGMRES"]):
+            row = dict(alg=algn, n=n, single=single, psd=positive, type=L.type_str(A)[:80])
+            bad = []
+            try:
+                with np.errstate(all="ignore"):
+                    X = inv(A, mkalg(algn, 50))
+                    obs = dict(dense=(np.asarray(X.to_dense()), ref), inv_b=(np.asarray(X @ b), ref @ b), solve=(np.asarray(solve(A, b, mkalg(algn, 50))), ref @ b),
+                               b_inv=(np.asarray(bl @ X), bl @ ref))
+                tol_ = max(rel, 1e-5) if "TIter" in L.rty(X) else rel   # a lazy CG / GMRES factor inside: its own tolerance (1e-6) applies
+                for name, (got, want) in obs.items():
+                    if got.shape != want.shape or not np.all(np.abs(got - want) <= tol_ * np.abs(want).max()):
+                        bad.append(f"{name}: max error {np.abs(got - want).max():.2e} against max |reference| {np.abs(want).max():.2e}")
+                res = np.linalg.norm(D @ obs["inv_b"][0].astype(complex) - b) / np.linalg.norm(b)
+                if "TIter" in L.rty(X):
+                    pass   # a lazy iterative factor inside: judged by the regular streams (badly scaled systems are outside the iterative contract)
+                row["residual"] = float(res)
+            except Exception as e:
+                bad.append(f"raised {type(e).__name__}: {str(e)[:140]}")
+            rows.append(row)
+            if bad:
+                bad_rows.append(dict(oracle_fail=True, case=dict(matrix=[[str(v) for v in rw] for rw in D.tolist()], **row), failed_clauses=bad))
+    return rows, bad_rows
+
+
 def large_cases(ctx, present):
     """both sides of the 10^6-entry switch of Auto with a matrix-free operator"""
     import cola
@@ -754,6 +877,9 @@ def run(ctx):
     # optional arguments of the iterative algorithm objects
     kw_rows, kw_bad, kw_hist = kwargs_stream(ctx, ctx.budget(150, 1200), present)
     mism += kw_bad
+    # tiny / mixed scales
+    ty_rows, ty_bad = tiny_stream(ctx, ctx.budget(120, 900), present)
+    mism += ty_bad
     # hidden state on inverse operators / algorithm objects / rebuilt operators
     ru_rows, ru_bad = reuse_stream(ctx, ctx.budget(160, 1200), present)
     mism += ru_bad
@@ -804,7 +930,7 @@ def run(ctx):
             for k in set(T.kinds_of(c["reflected"])):
                 kh[k] = kh.get(k, 0) + 1
     return dict(
-        evaluations=len(terms) + len(big_rows) + len(kw_rows) + len(ru_rows), distinct_nontrivial=distinct,
+        evaluations=len(terms) + len(big_rows) + len(kw_rows) + len(ru_rows) + len(ty_rows), distinct_nontrivial=distinct,
         rule="random invertible operator trees (unimodular/triangular/diagonal/permutation/tridiagonal/sparse/Householder leaves, Product incl. non-square factors, Kronecker, "
              "BlockDiag with multiplicities, Sum, Transpose/Adjoint, Sliced, Concatenated; PSD-declared, PSD-undeclared and Unitary-declared families; real and complex; "
              "constructors and public combinators) x 6 algorithm classes; non-trivial = depth>=2, distinct by reflected tree hash; plus 4 matrix-free operators of 1000 and 1001 rows",
@@ -813,6 +939,7 @@ def run(ctx):
         extra=dict(trees=len(cases), kind_histogram=kh, algorithm_histogram=alg_hist, outcome_histogram=err_hist, result_head_types=type_hist,
                    families={f: sum(1 for c in cases if c["fam"] == f) for f in ("inv", "psd", "psd_undecl", "uni")},
                    complex_trees=sum(1 for c in cases if c["cplx"]),
+                   tiny_scale_cases=len(ty_rows), tiny_scale_types={t_: sum(1 for r_ in ty_rows if r_['type'].split('[')[0] == t_) for t_ in sorted({r_['type'].split('[')[0] for r_ in ty_rows})},
                    reuse_cases=len(ru_rows), reuse_modes={m_: sum(1 for r_ in ru_rows if r_['mode'] == m_) for m_ in ('one_inverse', 'one_algorithm', 'rebuild')},
                    reuse_worst_residual_over_bound=max((r_['worst_over_bound'] for r_ in ru_rows), default=0.0),
                    skipped_false_annotations=wrong_ann, iterative_kwargs_cases=len(kw_rows), iterative_kwargs_histogram=kw_hist,
